@@ -169,10 +169,22 @@ class Gen:
             return Field(X(S), "a" if k == "int32" else "b")
         if c == "match":
             a, b, c2 = self.fresh("m"), self.fresh("m"), self.fresh("m")
-            return Match(X(E), [
-                (PCtor("A"), X(ty)),
-                (PCtor("B", PVar(a)), self.expr(ty, env + [(a, INT32)], d - 1)),
-                (PCtor("C", PVar(b), PVar(c2)), self.expr(ty, env + [(b, INT32), (c2, BOOL)], d - 1))])
+            scrut = X(E)
+            pre = []
+            under = getattr(self, "under", [])
+            if scrut["k"] == "var" and scrut["x"] in under:
+                # matching a variable again inside one of its own arms is emitted as a type switch on the narrowed variable
+                # (invalid Go: known finding, enumerated as c06:rematch-same-variable); random programs match a copy instead
+                w = self.fresh("s")
+                pre = [Let(w, scrut, ty=E)]
+                scrut = Var(w)
+            self.under = under + ([scrut["x"]] if scrut["k"] == "var" else [])
+            arms = [(PCtor("A"), X(ty)),
+                    (PCtor("B", PVar(a)), self.expr(ty, env + [(a, INT32)], d - 1)),
+                    (PCtor("C", PVar(b), PVar(c2)), self.expr(ty, env + [(b, INT32), (c2, BOOL)], d - 1))]
+            self.under = under
+            m = Match(scrut, arms)
+            return Block(pre, m) if pre else m
         if c == "block":
             return self.block(ty, env, d - 1, force=True)
         if c == "refget":
